@@ -312,14 +312,14 @@ package regclient
 //@   name BlobPut/import
 //@   in ~
 //@   infunc \)\.imageImportBlob$
-//@   requires under-the-announced-descriptor: r == caller.r && d == caller.desc && $unbox(rdr, *tar.Reader) == caller.trd.tr
+//@   requires under-the-announced-descriptor: r == old(caller.r) && d == old(caller.desc) && $unbox(rdr, *tar.Reader) == caller.trd.tr
 //@   requires only-when-the-target-lacks-it: $ret(BlobHead, 1) != nil
 //@ callsite (*RegClient).BlobHead(ctx, r, d)
 //@   prop C09
 //@   name BlobHead/import
 //@   in ~
 //@   infunc \)\.imageImportBlob$
-//@   requires probes-the-same-blob: r == caller.r && d == caller.desc
+//@   requires probes-the-same-blob: r == old(caller.r) && d == old(caller.desc)
 //@ ghost $tarReadOK bool
 //@ func (*RegClient).ImageImport(ctx, r, rs, opts) (err)
 //@   prop C09
@@ -337,13 +337,18 @@ package regclient
 //@   in ~
 //@   infunc \)\.ImageImport$
 //@   requires manifest-after-all-layers: $tarReadOK && r == caller.r
+//@ ghost $finishRan int
 //@ func (*RegClient).imageImportOCIPushManifests(ctx, r, trd) (err)
 //@   prop C09
+//@   entry-assume $finishRan == 0
+//@   on-call elem:finish: $finishRan = $finishRan + 1
+//@   let n = len(trd.finish)
 //@   loop 0 (i)
-//@     invariant innermost-first: -1 <= i && i < len(trd.finish)
+//@     invariant innermost-first: -1 <= i && i < n && $finishRan == n - 1 - i
+//@   ensures every-handler-ran: err == nil ==> $finishRan == n
 //@ callsite elem:finish()
 //@   prop C09
 //@   name finish[i]()/push
 //@   in ~
 //@   infunc \)\.imageImportOCIPushManifests$
-//@   requires runs-the-handlers-in-reverse: idx == caller.i && 0 <= idx && idx < len(caller.trd.finish)
+//@   requires runs-the-handlers-in-reverse: idx == caller.i && 0 <= idx
